@@ -7,7 +7,7 @@ From D3 Require Import Base.Ops Base.Vec Model.TetSym Gen.TetTables Model.TetMes
                        Proofs.TetMeshBase Proofs.TetMeshBox Proofs.TetMeshCyl
                        Proofs.TetMeshIcoKey Proofs.TetMeshIcoPure Proofs.TetMeshIco Proofs.TetMeshHelpers
                        Proofs.TetMeshCaps Proofs.TetMeshCurved Model.TetMeshBody Proofs.TetMeshBodyProofs
-                       Proofs.TetMeshBoxCom Proofs.TetMeshCylDisj.
+                       Proofs.TetMeshBoxCom Proofs.TetMeshCylDisj Proofs.TetMeshCylPrism.
 Import ListNotations.
 Local Open Scope R_scope.
 
@@ -64,6 +64,22 @@ Theorem C17_cylinder_disjoint : forall radius len rim,
   let m := cyl_mesh_rim (O := ROps) radius len rim in
   interiors_disjoint (mverts m) (mtets m).
 Proof. exact cyl_mesh_rim_disjoint. Qed.
+
+(** every element of sector (i, j) lies in the prism over the triangle (axis, rim_i, rim_j); with the two
+    theorems above (the volumes of a sector add up to the volume of that prism, no overlaps) the elements of a
+    sector tile the sector prism *)
+Theorem C17_cylinder_elements_in_prism : forall radius len rim,
+  0 < radius -> 0 < len ->
+  let m := cyl_mesh_rim (O := ROps) radius len rim in
+  forall i j xi yi xj yj,
+    rim_at rim i = Some (xi, yi) -> rim_at rim j = Some (xj, yj) ->
+    forall table, table = match cyl_classify (O := ROps) radius len with
+                          | Long => TetTables.cyl_long | Medium => TetTables.cyl_medium | Short => TetTables.cyl_short end ->
+    forall t a b c d p,
+      In t (flat_map (celem_tets (Z.of_nat (length rim)) i j) table) ->
+      tet_points (mverts m) t = Some (a, b, c, d) -> tet_closed a b c d p ->
+      in_sector_prism (xi, yi) (xj, yj) (len / 2) p.
+Proof. exact cyl_mesh_rim_elements_in_prism. Qed.
 
 (** class boundaries (long / medium / short) *)
 Theorem C17_cylinder_classes : forall radius len,
@@ -275,6 +291,7 @@ Print Assumptions C17_cube_exact_tiling.
 Print Assumptions C17_elements_in_box.
 Print Assumptions C17_cylinder_volumes.
 Print Assumptions C17_cylinder_disjoint.
+Print Assumptions C17_cylinder_elements_in_prism.
 Print Assumptions C17_cylinder_classes.
 Print Assumptions C17_cylinder_potentials.
 Print Assumptions C17_capsule_volumes.
